@@ -388,7 +388,7 @@ def build(name, c):
             kw = {"adj_fn": (lambda y: jnp.roll(y, -2))} if c["adj"] else {}
             return linop.LinearOperator(shape, output_shape=shape, eval_fn=lambda x: jnp.roll(x, 2), input_dtype=dt, output_dtype=dt, **kw)
         if k == "fftreal":
-            return linop.LinearOperator(shape, eval_fn=lambda x: jnp.fft.fft(x), input_dtype=dt, output_dtype=np.complex128)
+            return linop.LinearOperator(shape, eval_fn=lambda x: jnp.fft.fft(x), input_dtype=dt, output_dtype=np.result_type(dt, np.complex64))
         if k == "where":
             mask = jnp.asarray(np.array([[True, False, True], [False, True, True]]))
             return linop.LinearOperator(shape, output_shape=shape, eval_fn=lambda x: jnp.where(mask, x, 0.0), input_dtype=dt, output_dtype=dt)
